@@ -157,3 +157,89 @@ def choice_member(desc, tier, seed, props=('C02', 'C06')):
     ctx.samples.append(dict(desc=desc.label, leaves=len(leaves), feasible_leaves=len(feasible_nodes),
                             reference=len(ref_nodes)))
     return ctx.result()
+
+
+def _closure_edges(graph, node, include_choice):
+    """Specification of get_confirmed_edges_for_node: all edges reachable from `node` without passing through a
+    choice node and without following incompatibility edges (edges into choice nodes only if asked for)."""
+    from adsg_core.graph.graph_edges import iter_out_edges, get_edge_type, EdgeType
+    from adsg_core.graph.adsg_nodes import ChoiceNode
+    seen, stack, edges = {node}, [node], set()
+    while stack:
+        n = stack.pop()
+        for e in iter_out_edges(graph, n):
+            if get_edge_type(e) == EdgeType.INCOMPATIBILITY:
+                continue
+            if isinstance(e[1], ChoiceNode):
+                if include_choice:
+                    edges.add(e)
+                continue
+            edges.add(e)
+            if e[1] not in seen:
+                seen.add(e[1])
+                stack.append(e[1])
+    return edges
+
+
+def _check_cached_walk(ctx, graph, label, rng, n_orders):
+    from adsg_core.graph.traversal import get_confirmed_edges_for_node
+    nodes = sorted(graph.nodes, key=str)
+    for include_choice in (True, False):
+        for k in range(n_orders):
+            order = nodes[:]
+            if k == 1:
+                order.reverse()
+            elif k > 1:
+                rng.shuffle(order)
+            cache = {}
+            for nd in order:
+                got = get_confirmed_edges_for_node(graph, nd, include_choice=include_choice, cache=cache)
+                want = _closure_edges(graph, nd, include_choice)
+                ok = ctx.check('C02.cached-confirmed-walk-equals-closure', got == want,
+                               ['graph-api', label, include_choice, [str(x) for x in order], str(nd)],
+                               f'missing {sorted(str(e[:2]) for e in want - got)} extra {sorted(str(e[:2]) for e in got - want)}',
+                               (label, include_choice, k, str(nd)))
+                if not ok:
+                    break
+
+
+def cached_walk_member(desc, tier, seed):
+    """Bounded contract on traversal.get_confirmed_edges_for_node with a shared memo table: whatever was asked
+    before, the answer for a node is its closure (the selection-choice application and the influence matrix read the
+    memo table in an order that depends on the choices taken)."""
+    import random
+    ctx = Ctx(desc)
+    try:
+        b = gen.Built(desc)
+    except Exception:  # noqa
+        return ctx.result()
+    rng = random.Random(f'{seed}-{desc.label}')
+    _check_cached_walk(ctx, b.dsg.graph, 'initial', rng, 4 if tier == 'quick' else 10)
+    return ctx.result()
+
+
+def cached_walk_random(idx, tier, seed):
+    """Same contract on seeded random multigraphs (3..12 nodes, up to 30 edges incl. parallel ones, 0..2 choices)."""
+    import random
+    import networkx as nx
+    from adsg_core.graph.adsg_nodes import NamedNode, SelectionChoiceNode
+    from adsg_core.graph.graph_edges import add_edge, HashableDict
+    ctx = Ctx(None)
+    per = 25
+    for j in range(per):
+        s = idx * per + j
+        rng = random.Random(f'walk-{seed}-{s}')
+        g = nx.MultiDiGraph()
+        g.edge_attr_dict_factory = HashableDict
+        nodes = [NamedNode(f'N{i}') for i in range(rng.randint(3, 12))]
+        g.add_nodes_from(nodes)
+        for _ in range(rng.randint(2, 30)):
+            a, c = rng.sample(nodes, 2)
+            add_edge(g, a, c)
+        for i in range(rng.randint(0, 2)):
+            ch = SelectionChoiceNode(f'C{i}')
+            add_edge(g, rng.choice(nodes), ch)
+            for o in rng.sample(nodes, 2):
+                add_edge(g, ch, o)
+        _check_cached_walk(ctx, g, f'random-{s}', rng, 3)
+    return ctx.result()
